@@ -145,6 +145,7 @@ type Engine struct {
 	dynSigSeen map[string]bool
 	instIdx   map[*types.Func][][]types.Type
 	pendingTargs []types.Type
+	pendingRecvTargs []types.Type
 	chaIface  *types.Interface
 	Callers   []*CallersSpec        // `callers` clauses (coverage.go)
 	Owned     []*OwnedSpec          // ownership of struct fields by a set of functions (coverage.go)
